@@ -266,7 +266,7 @@ class CallMixin:
         if self.is_log_call(f):
             self.dropped.add('logging/warning calls')
             return [(st, VNone())]
-        if isinstance(f, ast.Name) and self.spec_mode and f.id in ('old', 'implies', 'forall', 'exists', 'iff', 'head'):
+        if isinstance(f, ast.Name) and self.spec_mode and f.id in ('old', 'implies', 'forall', 'exists', 'iff', 'head', 'cur'):
             return self.spec_call(st, e)
         if isinstance(f, ast.Name):
             h = getattr(self, 'b_' + f.id, None)
@@ -499,6 +499,8 @@ class CallMixin:
             for s, b in self.eval_defaults(st, info, bound, missing):
                 out.extend(self.apply_contract(s, c, info, b, node))
             return out
+        if any(d.endswith('abstractmethod') for d in info.decorators):
+            self.unsupported(node, 'call of abstract method %s without an interface contract' % info.key)
         if info.is_async and not getattr(self, '_awaiting', False):
             return [(st, VFunc('coro', info=info, args=args, kwargs=kwargs))]
         return self.inline(st, info, args, kwargs, node)
@@ -603,6 +605,7 @@ class CallMixin:
         replays run natively) as a total function and merge its paths into one value."""
         base = st.copy()
         n0 = len(base.pc)
+        args = [a.some() if isinstance(a, VOpt) else a for a in args]
         save = self.cur_contract, self.collect_only
         self.spec_mode += 1
         try:
@@ -689,6 +692,19 @@ class CallMixin:
                 self.unsupported(e, 'old() expression forks')
             # facts learnt about old-state reads are sound in the current state too
             for f in res[0][0].pc[len(old_st.pc):]:
+                st.assume(f)
+            return [(st, res[0][1])]
+        if name == 'cur':
+            # value of an expression over the *current* locals of the function under verification
+            fin = getattr(self, 'cur_final', None)
+            if fin is None:
+                self.unsupported(e, 'cur() outside an exit clause')
+            o = fin.copy()
+            n0 = len(fin.pc)
+            res = self.eval(o, e.args[0])
+            if len(res) != 1 or res[0][0].exc is not None:
+                self.unsupported(e, 'cur() expression forks')
+            for f in res[0][0].pc[n0:]:
                 st.assume(f)
             return [(st, res[0][1])]
         if name == 'head':
@@ -804,22 +820,36 @@ class CallMixin:
         for cls, cond in c.raises.items():
             s = st.copy()
             if cond != MAY:
-                s.assume(self.eval_clause(s, cond, env, info, old_st=old))
+                try:
+                    s.assume(self.eval_clause(s, cond, env, info, old_st=old))
+                except Unsupported:
+                    pass
             for nm, cl in c.raises_post.get(cls, {}).items():
-                s.assume(self.eval_clause(s, cl, env, info, old_st=old))
+                try:
+                    s.assume(self.eval_clause(s, cl, env, info, old_st=old))
+                except Unsupported:
+                    pass    # clause speaks about the callee's internals (head/cur): not usable at a call site
             if feasible(s.pc):
+                if c.ghost_exc is not None:
+                    c.ghost_exc(self, s, env, cls)
                 self.raise_exc(s, self.resolve_class_name(info, cls))
                 outcomes.append((s, None))
         # normal outcome
         for cls, cond in c.raises.items():
             if cond != MAY:
-                st.assume(z3.Not(self.eval_clause(st, cond, env, info, old_st=old)))
+                try:
+                    st.assume(z3.Not(self.eval_clause(st, cond, env, info, old_st=old)))
+                except Unsupported:
+                    pass
         for nm, cl in c.ensures.items():
-            d = self.definitional(st, c, cl, env, info, old)
-            if d is not None:
-                result = d
-                continue
-            st.assume(self.eval_clause(st, cl, env, info, old_st=old, result=result))
+            try:
+                d = self.definitional(st, c, cl, env, info, old)
+                if d is not None:
+                    result = d
+                    continue
+                st.assume(self.eval_clause(st, cl, env, info, old_st=old, result=result))
+            except Unsupported:
+                pass    # clause about the callee's internals (head/cur): not usable at a call site
         if c.ghost is not None:
             c.ghost(self, st, env, result)
         if feasible(st.pc):
